@@ -8,7 +8,7 @@ from .. import core, gen, hist, model
 from ..session import Outcome
 from . import PropBase, steps_with_ids
 
-FAULTS = ("clear", "clear_typing", "low_headroom_build", "exhaust_scan", "order", "reclimit", "twin")
+FAULTS = ("clear", "clear_typing", "low_headroom_build", "exhaust_scan", "order", "reclimit", "twin", "warnings_as_errors")
 
 UPLUS_SRC = '''
 VwT = typing.TypeVar("VwT")
@@ -101,6 +101,10 @@ class C15(PropBase):
         env = self.base_env(rng, fault_free=True)
         if "reclimit" in sw:
             env["reclimit"] = rng.choice([1000, 2000, 5000])
+        if "warnings_as_errors" in sw:
+            # ambient configuration: the process turns warnings into exceptions (python -W error, a
+            # test runner's filterwarnings=error); a valid annotation must still build
+            env["warnings"] = "error"
         types = []
         for _ in range(rng.randint(2, 6)):
             if rng.random() < 0.75:
@@ -150,6 +154,8 @@ class C15(PropBase):
         sess.build_memo = {}
         sess.drop_refs_on_clear = True
         sess.scanned = set()
+        if sess.env.get("warnings") == "error":
+            sess.faults["warnings_as_errors"] += 1
 
     def pre_op(self, sess, i, step):
         import typelib
